@@ -559,6 +559,8 @@ def rules(ctx):
     cache_alias(ctx)
     # whole package: no container obtained by reference from another object's attribute is updated in place (remote engines
     # serialise the user's program with io.to_blackbird / to_xir on every run)
+    from . import c02
+    c02.pure_decompose(ctx, "C09.op-immutable", methods=None, exempt=("Gate.apply",))
     from . import common_alias as CA
     CA.attr_alias_write(ctx, "C09.alias-write", list(ctx.tree.all_functions()), "Scope: every function of the package.")
     ctx.floor("C09.alias-write", 20)
